@@ -42,7 +42,7 @@ fn observe<const N: usize>(bytes: &[u8; N], scalars: &[u32; N], n: usize) {
     } else {
         assert!(got.is_none(), "out-of-range index yields none");
     }
-    kani::cover!(n < N && index + 1 == n, "last scalar of a multi-byte text fetched");
+    kani::cover!(n < N && index.wrapping_add(1) == n, "last scalar of a multi-byte text fetched");
     std::mem::forget(text);
 }
 
